@@ -182,3 +182,13 @@ package standard
 //@     invariant forall k string {in(s.builderBidsCache, k)} :: in(s.builderBidsCache, k) ==> k == sprintf("%d", slot) || in(old(s.builderBidsCache), k)
 //@   ensures forall k string {in(s.builderBidsCache, k)} :: in(s.builderBidsCache, k) ==> keySlot(k) + 64 >= slot
 //@   ensures slot <= 18446744073709551551 ==> in(s.builderBidsCache, sprintf("%d", slot))
+//@   // C09: what is cached for (slot, parent, validator) is the winning bid handed in, or - when there is no winner -
+//@   // a fresh placeholder (which BuilderBid answers with 'no bid')
+//@   ensures slot <= 18446744073709551551 ==> in(s.builderBidsCache[sprintf("%d", slot)], sprintf("%x:%x", parentHash, pubkey)) && (bid != nil ==> s.builderBidsCache[sprintf("%d", slot)][sprintf("%x:%x", parentHash, pubkey)] == bid) && (bid == nil ==> fresh(s.builderBidsCache[sprintf("%d", slot)][sprintf("%x:%x", parentHash, pubkey)]))
+//@
+//@ // the bid looked up is the one cached under the same slot, parent and validator
+//@ func (*Service).cachedBid
+//@   requires s != nil && unheld(s.builderBidsCacheMu) && s.builderBidsCache != nil
+//@   ensures result1 ==> in(s.builderBidsCache, sprintf("%d", slot)) && in(s.builderBidsCache[sprintf("%d", slot)], sprintf("%x:%x", parentHash, pubkey)) && result0 == s.builderBidsCache[sprintf("%d", slot)][sprintf("%x:%x", parentHash, pubkey)]
+//@   ensures !result1 ==> result0 == nil
+//@   modifies nothing
